@@ -55,6 +55,26 @@ TAPE_FNS = ["get_random", "calculate_random_scalars", "generate_random_secret", 
             "blind_proof_gen", "core_commit", "commit"]
 
 
+BBS_TYPES = [
+    "errors::Error",
+    "bbsplus::keys::BBSplusPublicKey",
+    "bbsplus::keys::BBSplusSecretKey",
+    "bbsplus::signature::BBSplusSignature",
+    "bbsplus::proof::BBSplusPoKSignature",
+    "bbsplus::proof::BBSplusZKPoK",
+    "bbsplus::proof::ProofInitResult",
+    "bbsplus::commitment::BBSplusCommitment",
+    "bbsplus::commitment::BlindFactor",
+    "utils::message::bbsplus_message::BBSplusMessage",
+    "bbsplus::generators::Generators",
+    "keys::pair::KeyPair",
+    "schemes::generics::Signature",
+    "schemes::generics::PoKSignature",
+    "schemes::generics::Commitment",
+    "schemes::generics::BlindSignature",
+]
+
+
 class Undecided(Exception):
     """A tool / anchor / dialect problem: never an alarm (exit 2)."""
 
@@ -439,6 +459,8 @@ def assemble(unit, items=None, twin=False):
     if family == "bbs":
         gen_ciphersuite_trait(items, out)
     # types
+    if family == "bbs" and "types" not in unit:
+        unit["types"] = list(BBS_TYPES)
     for tp in unit.get("types", []):
         it = items.get(tp)
         if it is None:
